@@ -162,7 +162,7 @@ def feasible_listing(c, xs, fs, k):
                                                       fs.elems[cnt_feas(i)] == D.vals[key(i)])),
                                patterns=[cnt_feas(i)])),
         ("sound", z3.ForAll([j], z3.Implies(z3.And(0 <= j, j < xs.n), z3.And(D.member[HNd.dt.mk(xs.elems[j])], feasible(cons, D.vals[HNd.dt.mk(xs.elems[j])]),
-                                                                               fs.elems[j] == D.vals[HNd.dt.mk(xs.elems[j])])), patterns=[xs.elems[j]])),
+                                                                               fs.elems[j] == D.vals[HNd.dt.mk(xs.elems[j])])), patterns=[xs.elems[j], fs.elems[j]])),
     ]
 
 
@@ -312,15 +312,18 @@ class Optimum(Contract):
                 ("constraint-names-distinct", z3.ForAll([a, b], z3.Implies(z3.And(0 <= a, a < b, b < F.n), nm(a) != nm(b))))]
 
     def some_feasible(self, c):
+        """Some recorded point is feasible.  (The last two conjuncts hold for every feasible recorded point by the order view
+        of the database and the definition of cnt_feas; they are written out so that the provers instantiate them.)"""
         D, cons = hist(c)
-        i = z3.Int("i!sf")
-        return z3.Exists([i], z3.And(0 <= i, i < D.n, feasible(cons, D.vals[D.keys[i]])))
+        p = z3.Const("p!sf", HNd.sort())
+        return z3.Exists([p], z3.And(D.member[p], feasible(cons, D.vals[p]), D.pos[p] >= 0, cnt_feas(D.pos[p] + 1) >= 1))
 
     def finding_regions(self, c):
         D, cons = hist(c)
         i = z3.Int("i!fr")
         return {"no-feasible-point-has-an-objective-value":
-                z3.ForAll([i], z3.Implies(z3.And(0 <= i, i < D.n, feasible(cons, D.vals[D.keys[i]])), z3.Not(obj_of(c, D.vals[D.keys[i]])[0])))}
+                z3.ForAll([i], z3.Implies(z3.And(0 <= i, i < D.n, feasible(cons, D.vals[D.keys[i]]), cnt_feas(i + 1) >= 1, cnt_feas(i) >= 0),
+                                          z3.Not(obj_of(c, D.vals[D.keys[i]])[0])))}
 
     def ensures(self, c):
         D, cons = hist(c)
@@ -338,7 +341,8 @@ class Optimum(Contract):
                     out.append((f"reported:{label}", cl))
                 p = z3.Const("p!best", HNd.sort())
                 has_p, val_p = obj_of(c, D.vals[p])
-                out.append(("no-better-feasible-point", z3.ForAll([p], z3.Implies(z3.And(D.member[p], feasible(cons, D.vals[p]), has_p, D.pos[p] >= 0), f0 <= val_p))))
+                out.append(("no-better-feasible-point", z3.ForAll([p], z3.Implies(z3.And(D.member[p], feasible(cons, D.vals[p]), has_p, D.pos[p] >= 0, cnt_feas(D.pos[p] + 1) >= 1,
+                                                                                             cnt_feas(D.pos[p]) >= 0), f0 <= val_p))))
         return out
 
 
